@@ -76,7 +76,7 @@ BOUNDS = {
         "g6": "g1 x g3: depth 0..3 x 3 spellings x 4 include mechanisms x sites x 4 arg sets x 4 context sets",
         "g8": "2 or 3 <%namespace file=> tags of one template pointing at libraries in different directories: every declaration order x call order as declared / reversed x 6 probes inside the library def (local.uri+self.uri, self.who()/local.who(), local.include_file, local.get_template, local.get_namespace, <%include>, all with a relative 't.html') x tag in a plain / derived / base template x 2 backings",
         "g9": "URI pairs that differ only in non-word characters (4 pairs, both orders) x {include, include first, namespace def, inherit}, each template declaring namespace 'n' with a different file; plus the control with a word-character difference; 2 backings",
-        "g10": "histories on one lookup: 12 templates reaching one library (import=*, import=names, named, inline defs in the tag, inheritable, include, inherit, API): all 144 ordered pairs a,b,a x 2 backings",
+        "g10": "histories on one lookup: 24 templates reaching one library (import=*, import=names, named, inline defs in the tag, inheritable, include, inherit, API): all ordered pairs a,b,a x 2 backings",
         "g7": "same namespace name 'h' declared in two files of one render: 12 ordered directory-depth pairs x {h.get_namespace, h.get_template, h.include_file, chained get_namespace} x {includer+included, template+namespace file, derived+base} x which call runs first x target beside both/first/second/neither x 2 backings",
     },
     "thorough": {
@@ -890,6 +890,20 @@ G10_MAINS = {
     "include": ('[<%include file="lib.html"/>]', "[K|lib-body]"),
     "inherit": ('<%inherit file="lib.html"/><%block name="lb">D</%block>', "D|lib-body"),
     "api": ("[${context.lookup.get_template('/d/lib.html').get_def('libdef').render()}<% ns = local.get_namespace('lib.html') %>${ns.other(6)}]", "[LO6]"),
+    # several <%namespace> tags in one template: an importing tag followed / preceded by tags that import nothing
+    "import-then-plain-tag": ('<%namespace file="lib.html" import="libdef"/><%namespace name="r" file="lib2.html"/>[${libdef()}${r.two()}]', "[L2]"),
+    "plain-tag-then-import": ('<%namespace name="r" file="lib2.html"/><%namespace file="lib.html" import="libdef"/>[${libdef()}${r.two()}]', "[L2]"),
+    "star-then-plain-tag": ('<%namespace file="lib.html" import="*"/><%namespace name="r" file="lib2.html"/>[${libdef()}${other(8)}${r.two()}]', "[LO82]"),
+    "import-then-two-plain-tags": ('<%namespace file="lib.html" import="other"/><%namespace name="r" file="lib2.html"/><%namespace name="q" file="lib.html"/>[${other(9)}${q.libdef()}<%def name="dd()">${other(0)}</%def>${dd()}]', "[O9LO0]"),
+    "two-importing-tags": ('<%namespace file="lib2.html" import="two"/><%namespace file="lib.html" import="libdef"/>[${two()}${libdef()}]', "[2L]"),
+    # unresolvable URIs of unusual shape: below a regular file, a component no file system accepts, a directory
+    "include-below-a-file": ('[<%include file="lib.html/extra.html"/>]', "LOOKUP-ERROR"),
+    "namespace-below-a-file": ('<%namespace name="q" file="lib.html/extra.html"/>[${q.libdef()}]', "LOOKUP-ERROR"),
+    "inherit-below-a-file": ('<%inherit file="/d/lib.html/extra.html"/>x', "LOOKUP-ERROR"),
+    "api-below-a-file": ("[${local.get_namespace('lib.html/extra.html').libdef()}]", "LOOKUP-ERROR"),
+    "include-overlong-name": ('[<%include file="' + "n" * 300 + '.html"/>]', "LOOKUP-ERROR"),
+    "include-a-directory": ('[<%include file="/d"/>]', "LOOKUP-ERROR"),
+    "get_template-below-a-file": ("[${context.lookup.get_template('/d/lib.html/x/y.html').render()}]", "LOOKUP-ERROR"),
     "star-attr-probe": ('<%namespace name="q" file="lib.html"/>[${hasattr(q, "extra")}${hasattr(q, "more")}${sorted(k for k in ("libdef", "other", "extra", "more", "lb") if hasattr(q, k))}]', "[FalseFalse['lb', 'libdef', 'other']]"),
 }
 
@@ -905,7 +919,7 @@ def g10_cases(tier):
 def g10_execute(c):
     from mako.lookup import TemplateLookup
 
-    files = {"/d/lib.html": G10_LIB, "/d/ibase.html": '<%namespace name="q" file="lib.html" inheritable="True"/>${next.body()}'}
+    files = {"/d/lib.html": G10_LIB, "/d/lib2.html": '<%def name="two()">2</%def>', "/d/ibase.html": '<%namespace name="q" file="lib.html" inheritable="True"/>${next.body()}'}
     for k, (src, _e) in G10_MAINS.items():
         files["/d/" + k + ".html"] = src
     wd = None
@@ -924,7 +938,9 @@ def g10_execute(c):
             try:
                 obs.append("".join(lk.get_template("/d/" + k + ".html").render_unicode().split("\n")))
             except Exception as e:  # noqa
-                obs.append("%s: %s" % (type(e).__name__, str(e)[:160]))
+                from mako import exceptions as mexc
+
+                obs.append("LOOKUP-ERROR" if isinstance(e, mexc.TemplateLookupException) else "%s: %s" % (type(e).__name__, str(e)[:160]))
         return obs
     finally:
         if wd is not None:
